@@ -13,13 +13,14 @@ inductive Act where
   | unlock
   | read (field : String)
   | write (field : String)
+  | ret                      -- an early `return` of the entry point (control flow is flattened: a checkpoint)
   deriving Repr, DecidableEq
 
 abbrev Prog := List Act
 
 /-- `guarded held p`: every access of `p` happens with the mutex held, the mutex is never
 locked while held (Go's mutex is not reentrant) nor unlocked while not held, and it is
-released at the end -/
+released at the end and at every early return -/
 def guarded : Bool → Prog → Bool
   | h, [] => !h
   | false, .lock :: r => guarded true r
@@ -28,6 +29,19 @@ def guarded : Bool → Prog → Bool
   | false, .unlock :: _ => false
   | h, .read _ :: r => h && guarded h r
   | h, .write _ :: r => h && guarded h r
+  | _, .ret :: _ => false      -- checkpoints are not actions: programs are `strip`ped first
+
+/-- the actions of a program, without the early-return checkpoints -/
+def strip (p : Prog) : Prog := p.filter (· != .ret)
+
+/-- at every early return of the entry point the mutex is not held (the flattened program goes on
+with the statements after the return, as if the branch had not been taken) -/
+def retOK : Bool → Prog → Bool
+  | _, [] => true
+  | _, .lock :: r => retOK true r
+  | _, .unlock :: r => retOK false r
+  | h, .ret :: r => !h && retOK h r
+  | h, _ :: r => retOK h r
 
 structure St where
   rest : Nat → Prog          -- what each thread still has to do
